@@ -74,6 +74,10 @@ func buildWorld(cfg *concCfg, nclients int) *world {
 	_ = v.WriteFile("/a/f", []byte("AAAA"), 0o666)
 	_ = v.WriteFile("/b/g", []byte("BB"), 0o666)
 	_ = v.WriteFile("/a/d/h", []byte("H"), 0o666)
+	// a second file in every directory: a rename can then replace a file by a file.
+	_ = v.WriteFile("/a/e", []byte("EE"), 0o666)
+	_ = v.WriteFile("/a/d/i", []byte("I"), 0o666)
+	_ = v.WriteFile("/b/j", []byte("JJJ"), 0o666)
 
 	if cfg.HardLink {
 		_ = v.Link("/a/f", "/b/k")
@@ -188,9 +192,9 @@ var concPaths = []string{ //nolint:gochecknoglobals // path pool: small on purpo
 
 var focusPaths = [][]string{ //nolint:gochecknoglobals // one directory and its entries.
 	nil,
-	{"/a/x", "/a/f", "/a/y", "/a/d", "/a"},
-	{"/a/d/h", "/a/d/x", "/a/d", "/a/d/y"},
-	{"/b/g", "/b/x", "/b/k", "/b"},
+	{"/a/x", "/a/f", "/a/y", "/a/d", "/a", "/a/e"},
+	{"/a/d/h", "/a/d/x", "/a/d", "/a/d/y", "/a/d/i"},
+	{"/b/g", "/b/x", "/b/k", "/b", "/b/j"},
 }
 
 func pickPath(t *sim.Tape, cfg *concCfg, adversarial bool) string {
@@ -359,7 +363,7 @@ func genConc(t *sim.Tape, fsKinds []string, maxClients, maxOps int, adversarial 
 		cfg.TempDomain = t.Range(2, 3)
 	}
 
-	if avfs.BuildFeatures()&avfs.FeatSetOSType != 0 && t.Chance(150) {
+	if avfs.BuildFeatures()&avfs.FeatSetOSType != 0 && t.Chance(250) {
 		// an instance that emulates Windows (builds with avfs_setostype): other error values, both separators.
 		cfg.Windows = true
 		cfg.Symlinks = false
